@@ -438,6 +438,10 @@ Fixpoint run_handler (fuel : nat) (script : list N) (r : rstate) (w : world) : r
       let data := take n rest in
       let rest' := drop n rest in
       if negb (rwriteable r) then run_handler f rest' r (w_ev w [6; 99])
+      else if rlock r then
+        (* StreamWriter::poll_write first takes the output mutex; Request.lock still holds it (a reply flush that was left
+           unfinished: Pending and abandoned, or failed — "keep lock even in the Err case"): the writer waits for ever *)
+        Halt ODeadlock w
       else
         match writer_write_all (N.to_nat (n / 65535) + 2) s (r_id (sreq (rsp r))) data w with
         | Halt o w' => Halt o w'
@@ -445,7 +449,9 @@ Fixpoint run_handler (fuel : nat) (script : list N) (r : rstate) (w : world) : r
         | Ok (Some k) w' => Ok (inr k, r) (w_ev w' [6; k])
         end
     | 7 :: s :: rest =>
-      if rwriteable r then run_handler f rest r (w_ev w [7; 0]) else run_handler f rest r (w_ev w [7; 99])
+      if rwriteable r then (if rlock r then Halt ODeadlock w       (* poll_flush takes the same mutex *)
+                            else run_handler f rest r (w_ev w [7; 0]))
+      else run_handler f rest r (w_ev w [7; 99])
     | 8 :: d :: c :: _ => Ok (inl (d, c), r) (w_ev w [8])
     | 9 :: k :: _ => Ok (inr (if (2 <=? k) && (k <=? 7) then k else EK_Other), r) (w_ev w [9])
     | 10 :: n :: rest =>                                   (* req.read(&mut buf[..n]).await?  — propagates the error *)
